@@ -72,7 +72,7 @@ func LedgerContract(r *rand.Rand, targets []common.Address, depth int) []byte {
 			if op == vm.CALL {
 				a.Push(0)
 			}
-			a.PushAddr(target()).Push(uint64(30000 + r.Intn(100000))).Op(op, vm.POP)
+			a.PushAddr(target()).Push(uint64(30000+r.Intn(100000))).Op(op, vm.POP)
 		case k < 10:
 			a.Push(uint64(1 + r.Intn(3))).Push(uint64(r.Intn(3))).Op(vm.SSTORE)
 		default:
